@@ -566,6 +566,14 @@ func (m *model) Actions() []string {
 	for _, r := range m.remotes {
 		out = append(out, "merge("+r+")")
 	}
+	if m.p.Names != "odd" {
+		// a new fetch after the removal: the entity is then held by remote-tracking refs only (the
+		// "fetched, never merged" subset), from where it may legitimately come back through a merge,
+		// and from where a removal by id has tracking refs to delete and no local ref to find
+		for _, r := range m.remotes {
+			out = append(out, "fetch("+r+")")
+		}
+	}
 	return out
 }
 
